@@ -349,6 +349,24 @@ IDENTITY_ROOTS = [
 ]
 
 
+def dirname_cases() -> Iterator[dict[str, Any]]:
+    """Chains whose templates live in directories and share a base name (`pages/base` extends `base`): the
+    name a template was loaded by, not its file name, is what `extends` refers to."""
+    shapes = [[["a", "", 1, 0], ["b", "", 0, 0]], [["a", "", 0, 0], ["b", "", 1, 0]], [["a", "", 1, 0]]]
+    for names in (["pages/base", "base"], ["site/pages/base", "pages/base", "base"], ["x/base", "y/base", "base"],
+                  ["base/base", "base"], ["d/t", "d/e/t", "t"]):
+        depth = len(names)
+        ts = build_chain([shapes[i % len(shapes)] for i in range(depth)])
+        ren = {f"t{i}": names[i] for i in range(depth)}
+        out = {}
+        for old, tmpl in ts.items():
+            t2 = dict(tmpl)
+            if t2.get("extends") is not None:
+                t2["extends"] = ren[t2["extends"]]
+            out[ren[old]] = t2
+        yield _model_case("dirnames", out, entry=names[0], data={"u": "U", "f": True, "xs": [1], "ys": [2], "v": 3, "g": False})
+
+
 def nested_cases() -> Iterator[dict[str, Any]]:
     """A small deterministic sample of the nested-chain shape (also in strategy())."""
     data = {"u": "U", "v": 7, "xs": [1, 2], "ys": [3], "f": True, "g": False}
@@ -608,6 +626,7 @@ class C08(Prop):
             for depth in (1, 2, 3):
                 yield {"kind": "identity", "root": root, "depth": depth, "data": {"xs": [1, 2, 3], "u": "U", "f": True}}
         yield from error_cases()
+        yield from dirname_cases()
         yield from nested_cases()
         yield from enum_chain_cases(tier, seed)
 
